@@ -112,77 +112,131 @@ def rand_soc_data(rng, nw, amp=2):
 PAULI = np.array([[[0, 1], [1, 0]], [[0, -1j], [1j, 0]], [[1, 0], [0, -1]]], dtype=complex)
 
 
+class PauliNotExact(W.NonIntegral):
+    """the code's rotated Pauli matrices for an angle in multiples of pi/2 are not Gaussian integers: a valid other choice
+    cannot be written into an exact record (it is then checked numerically)"""
+
+
 def exact_pauli_rot(m, n):
-    from wannierberri.w90files.soc import SOC
-    P = SOC.get_pauli_rotated(theta=m * np.pi / 2, phi=n * np.pi / 2)      # [i, j, c]
-    return np.transpose(W._round_gauss(P, "pauli_rotated"), (2, 0, 1))
+    """the CODE's rotated Pauli matrices as P[c, s, t], exact"""
+    try:
+        return W._round_gauss(W.code_pauli(m, n), "pauli_rotated")
+    except W.NonIntegral as ex:
+        raise PauliNotExact(str(ex))
 
 
-# ------------------------------------------------------------------ recorded calls
-def rec_reorder(rng, a):
-    p = list(range(a["nw"]))
-    rng.shuffle(p)
-    s = W.build(a)
+def _bkw(var):
+    return {} if var is None else dict(periodic=var["periodic"], lattice=var["lattice"])
+
+
+# ------------------------------------------------------------------ recorded calls (only the public call runs through under_test)
+def rec_reorder(rng, a, p=None, var=None):
+    if p is None:
+        p = list(range(a["nw"]))
+        rng.shuffle(p)
+    s = W.build(a, **_bkw(var))
     with quiet():
-        s.reorder(p)
+        W.under_test(s.reorder, p)
     out, views = W.project(s)
     return dict(fn="reorder", sys=W.sys_json(a), p=[x + 1 for x in p], out=W.sys_json(out)), views, out
 
 
-def rec_rotate(rng, a):
+def rec_rotate(rng, a, var=None):
     U = rand_phase_perm(rng, a)
-    s = W.op_rotate(W.build(a), U)
+    s = W.op_rotate(W.build(a, **_bkw(var)), U)
     out, views = W.project(s)
     return dict(fn="rotate", sys=W.sys_json(a), U=W.mat_json(U), out=W.sys_json(out)), views, out
 
 
-def rec_doublespin(rng, a):
-    s = W.build(a)
+def rec_doublespin(rng, a, var=None):
+    from . import _sysalg_ops as O
+    s = W.build(a, **_bkw(var))
     with quiet(), warnings.catch_warnings():
         warnings.simplefilter("ignore")
-        s.double_spin()
+        W.under_test(s.double_spin)
+        ok = O.normalise_double_spin(s)
     out, views = W.project(s)
-    ss = W._round_gauss(np.array(s.get_R_mat("SS"))[s.rvec.iR0], "SS")
-    return dict(fn="doublespin", sys=W.sys_json(a), out=W.sys_json(out),
-                ss=[W.mat_json(ss[:, :, c]) for c in range(3)]), views, out
+    ss0 = O.ss_at_R0(s)
+    ss = W._round_gauss(ss0 if ss0 is not None else O.interlaced_ss(2 * a["nw"]), "SS")
+    rec = dict(fn="doublespin", sys=W.sys_json(a), out=W.sys_json(out), ss=[W.mat_json(ss[:, :, c]) for c in range(3)])
+    return rec, views, out, ok
 
 
-def make_real_soc(up, dn, socdata=None, m=0, n=0, al=1):
-    soc = W.make_soc(W.build(up), W.build(dn))
+def make_real_soc(up, dn, socdata=None, m=0, n=0, al=1, nspin=2, var=None, degrees=False):
+    """real SystemSOC and its abstract description. nspin = 1: SystemSOC(up) (dn is ignored, the abstract system has dn = up and
+    all spin blocks of the SOC data taken from the 0,0 block)"""
+    if nspin == 1:
+        dn = up
+    soc = W.make_soc(W.build(up, **_bkw(var)), None if nspin == 1 else W.build(dn, **_bkw(var)))
     a = dict(up=up, dn=dn, hassoc=False, rsS=[(0, 0, 0)],
              D={st: {(0, 0, 0): np.zeros((up["nw"], up["nw"], 3), dtype=complex)} for st in ("00", "11", "01")},
              P=PAULI.copy(), al=0)
+    ret = (None, None)
     if socdata is not None:
         rsS, D = socdata
+        if nspin == 1:
+            D = W.nspin1_D(D)
         a.update(hassoc=True, rsS=rsS, D=D, al=al, P=exact_pauli_rot(m, n))
-        W.set_soc(soc, a, m, n)
+        ret = W.set_soc(soc, a, m, n, nspin=nspin, degrees=degrees)
+    a["ret"] = ret
     return soc, a
 
 
-def rec_soc_hk(rng, up, dn, socdata, m, n, al, ks):
-    soc, a = make_real_soc(up, dn, socdata, m, n, al)
-    hk = W._round_gauss(W.real_hk(soc, ks), "Data_K_soc.HH_K")
-    rec = dict(fn="soc_hk", soc=W.soc_json(a), ks=[list(k) for k in ks], hk=[W.mat_json(h) for h in hk], hsoc=[])
-    if a["hassoc"]:
-        hs = W._round_gauss(soc.get_R_mat("Ham_SOC"), "Ham_SOC")
+def rec_soc_hk(rng, up, dn, socdata, m, n, al, ks, nspin=2, var=None, degrees=False):
+    soc, a = make_real_soc(up, dn, socdata, m, n, al, nspin=nspin, var=var, degrees=degrees)
+    hk = W._round_gauss(W.under_test(W.real_hk, soc, ks), "Data_K_soc.HH_K")
+    rec = dict(fn="soc_hk", soc=W.soc_json(a), ks=[list(k) for k in ks], hk=[W.mat_json(h) for h in hk], hsoc=[], nspin=nspin)
+    if a["hassoc"] and a["ret"][0] is not None:
+        hs = W._round_gauss(a["ret"][0], "Ham_SOC")
         rs = [tuple(int(x) for x in R) for R in soc.rvec.iRvec]
         rec["hsoc"] = [W.mat_json(hs[rs.index(R)]) for R in a["rsS"]]
+    elif a["hassoc"]:
+        rec["hsoc"] = [W.mat_json(W.abs_ham_soc(a)[R]) for R in a["rsS"]]       # not reachable: the clause is then trivially true
     return rec, soc, a
 
 
 def rec_toplain(soc, a):
     with quiet(), warnings.catch_warnings():
         warnings.simplefilter("ignore")
-        plain = soc.get_system_R()
+        plain = W.under_test(soc.get_system_R)
     out, views = W.project(plain)
-    out["spinor"] = True
     return dict(fn="toplain", soc=W.soc_json(a), out=W.sys_json(out)), views, out, plain
 
 
-def rec_interp(rng, s0, s1, a, den):
+def rec_interp(rng, s0, s1, a, den, var=None, use_pointgroup=1, reuse=False):
     from wannierberri.system.interpolate import SystemInterpolator
+    from . import _sysalg_ops as O
     with quiet(), warnings.catch_warnings():
         warnings.simplefilter("ignore")
-        res = SystemInterpolator(W.build(s0), W.build(s1)).interpolate(a / den)
+        r0, r1 = W.build(s0, **_bkw(var)), W.build(s1, **_bkw(var))
+        itp = W.under_test(SystemInterpolator, r0, r1, use_pointgroup=use_pointgroup) if use_pointgroup != 1 else W.under_test(SystemInterpolator, r0, r1)
+        if reuse:
+            O._mutate(W.under_test(itp.interpolate, 0.25))
+        res = W.under_test(itp.interpolate, a / den)
     out, views = W.project(res)
     return dict(fn="interp", s0=W.sys_json(s0), s1=W.sys_json(s1), a=a, den=den, out=W.sys_json(out)), views, out
+
+
+def scaled_soc_data(rng, nw, scale):
+    rsS, D = rand_soc_data(rng, nw)
+    return rsS, {st: {R: D[st][R] * scale for R in rsS} for st in D}
+
+
+def rec_interp_soc(rng, a, den, ks, nw=None, var=None):
+    """SystemInterpolatorSOC between two spin-orbit systems with SOC terms (all data multiples of den): H(k) of Data_K_soc"""
+    from wannierberri.system.interpolate import SystemInterpolatorSOC
+    nw = nw or rng.choice([1, 2])
+    socs = []
+    for _ in range(2):
+        up, dn = rand_sys(rng, nw=nw, with_x=False, scale=den), rand_sys(rng, nw=nw, with_x=False, scale=den)
+        socs.append(make_real_soc(up, dn, scaled_soc_data(rng, nw, den), rng.randint(0, 3), rng.randint(0, 3), rng.choice([1, 2, -1]), var=var))
+    (r0, a0), (r1, a1) = socs
+    with quiet(), warnings.catch_warnings():
+        warnings.simplefilter("ignore")
+        itp = W.under_test(SystemInterpolatorSOC, r0, r1)
+        res = W.under_test(itp.interpolate, a / den)
+        hk = W._round_gauss(W.under_test(W.real_hk, res, ks), "Data_K_soc.HH_K of the interpolated system")
+    for x in (a0, a1):
+        x.pop("ret", None)
+    rec = dict(fn="interp_soc", soc0=W.soc_json(a0), soc1=W.soc_json(a1), a=a, den=den, ks=[list(k) for k in ks], hk=[W.mat_json(h) for h in hk])
+    return rec, res, (a0, a1)
